@@ -198,18 +198,28 @@ def mw_get_target(next_, posargs_, target_file, target_format, spec_file, spec_f
     if target_text and target_file:
         raise UsageError('expected target file or target argument, not both')
     elif target_text == '-' or target_file == '-':
-        target_text = sys.stdin.read()
+        target_text = _read_stdin()
     elif target_file:
         try:
             target_text = open(target_file).read()
         except (OSError, UnicodeError) as ose:  # (missing, unreadable or not text at all)
             raise UsageError(f'could not read target file {target_file!r}, got: {ose}')
     elif not target_text and not isatty(sys.stdin):
-        target_text = sys.stdin.read()
+        target_text = _read_stdin()
 
     target = mw_handle_target(target_text, target_format)
 
     return next_(spec=spec, target=target)
+
+
+def _read_stdin():
+    try:
+        text = sys.stdin.read()
+        # (in the C / POSIX locales undecodable bytes arrive as lone surrogates)
+        text.encode('utf-8')
+    except (OSError, UnicodeError) as e:  # (unreadable or not text at all)
+        raise UsageError(f'could not read target from standard input, got: {e}')
+    return text
 
 
 def _from_glom_import_star():
